@@ -1,0 +1,11 @@
+// Copyright Amazon.com, Inc. or its affiliates. All Rights Reserved.
+// SPDX-License-Identifier: Apache-2.0
+
+//go:build !verif
+
+// Package vhook provides named pause points for verification harnesses.
+// Without the "verif" build tag every call is a no-op that the compiler inlines away.
+package vhook
+
+// At marks a named point in the code. No-op unless built with -tags verif.
+func At(point string) {}
